@@ -439,7 +439,7 @@ def run(ctx):
     ctx.assumptions += ['NumPy elementwise arithmetic and reshape/sum follow their specification',
                         'wavefront.power is taken from the real object (how power derives from the field is not part of C17)',
                         'inputs have the size of detector.input_grid (size validation is not part of the property)']
-    n = ctx.scale(500, 9000)
+    n = ctx.scale(2500, 40000)
     cases = list(DIRECTED)
     for k in range(n):
         cases.append(gen_case(ctx.rng, big=(ctx.tier == 'thorough' and k % 4 == 0)))
